@@ -154,4 +154,145 @@ example :
     retry cfg [.exc 9 100, .ok 7, .ok 7] = ⟨.raised 9 100, 1, 0⟩ ∧
     retry cfg [.exc 1 100, .exc 1 101, .exc 1 102] = ⟨.raised 1 102, 3, 2⟩ := by decide
 
+/-! ## several calls on one client: the model of one call is all there is -/
+
+/-- C17 (histories): a call leaves the object as it found it -/
+theorem C17_calls_object_unchanged (o : Obj) (calls : List MCall) : (runCalls o calls).1 = o := by
+  induction calls generalizing o with
+  | nil => rfl
+  | cons c rest ih => simpa [runCalls, callOnce] using ih o
+
+/-- **C17 (histories)**: in any history of calls on one `RetryingClient`, the result, the number of
+invocations and the number of sleeps of call `k` are those of the single-call model on call `k`'s own
+script and the configuration — the calls before it (how many attempts they used, whether they failed)
+and after it do not enter.  In particular each call has the full budget `attempts`. -/
+theorem C17_calls_independent (o : Obj) (calls : List MCall) (k : Nat) (c : MCall)
+    (hk : calls[k]? = some c) :
+    (runCalls o calls).2[k]? = some (retry (o.cfg c.method) c.script) := by
+  induction calls generalizing o k with
+  | nil => simp at hk
+  | cons x rest ih =>
+    cases k with
+    | zero => simp at hk; subst hk; simp [runCalls, callOnce]
+    | succ k => simpa [runCalls, callOnce] using ih o k (by simpa using hk)
+
+/-- C17 (histories): two histories on equally configured objects that have the same call at position `k`
+give the same run at position `k` -/
+theorem C17_calls_independent_of_other_calls (o : Obj) (h1 h2 : List MCall) (k : Nat) (c : MCall)
+    (e1 : h1[k]? = some c) (e2 : h2[k]? = some c) :
+    (runCalls o h1).2[k]? = (runCalls o h2).2[k]? := by
+  rw [C17_calls_independent o h1 k c e1, C17_calls_independent o h2 k c e2]
+
+/-- C17 (histories): one run per call -/
+theorem C17_calls_length (o : Obj) (calls : List MCall) : (runCalls o calls).2.length = calls.length := by
+  induction calls generalizing o with
+  | nil => rfl
+  | cons c rest ih => simp [runCalls, ih]
+
+/-- C17 (histories, full budget): wherever it stands in the history, a call whose wrapped method keeps
+raising retryable exceptions is attempted exactly `attempts` times with `attempts − 1` sleeps, and the
+exception of the last attempt is re-raised -/
+theorem C17_calls_each_has_full_budget (o : Obj) (calls : List MCall) (k : Nat) (c : MCall)
+    (hk : calls[k]? = some c) (ha : 1 ≤ o.attempts) (hlen : o.attempts ≤ c.script.length)
+    (hall : ∀ j, j < o.attempts → RetryableAt (o.cfg c.method) c.script j) :
+    ∃ r cls id, (runCalls o calls).2[k]? = some r ∧ r.invocations = o.attempts ∧
+      r.sleeps = o.attempts - 1 ∧ r.result = .raised cls id ∧
+      c.script[o.attempts - 1]? = some (.exc cls id) := by
+  refine ⟨retry (o.cfg c.method) c.script, ?_⟩
+  obtain ⟨i, hi, hinv, hsl, _, hfin⟩ := C17_retry_spec (o.cfg c.method) c.script ha hlen
+  have hi' : i < o.attempts := hi
+  obtain ⟨c', id', hs, hr⟩ := hall i hi'
+  rcases hfin with ⟨v, h1, _⟩ | ⟨c2, id2, h1, h2, h3⟩
+  · rw [hs] at h1; cases h1
+  · rw [hs] at h1
+    have hc : c' = c2 := by cases h1; rfl
+    have hid : id' = id2 := by cases h1; rfl
+    subst hc; subst hid
+    have hlast : i + 1 = o.attempts := by
+      rcases h3 with h3 | h3
+      · rw [hr] at h3; cases h3
+      · exact h3
+    refine ⟨c', id', C17_calls_independent o calls k c hk, ?_, ?_, h2, ?_⟩
+    · rw [hinv]; exact hlast
+    · rw [hsl]; omega
+    · have : o.attempts - 1 = i := by omega
+      rw [this]; exact hs
+
+/-- C17 (constructor): `construct` succeeds exactly when `ctorOk` says so -/
+theorem C17_construct_iff_ctorOk (a : CtorArgs) (d : List Nat) (s : Nat → Nat → Bool) :
+    (construct a d s).isSome = ctorOk a := by
+  unfold construct ctorOk
+  split
+  · rfl
+  · split
+    · split <;> simp_all
+    · rfl
+
+/-- **C17 (empty filter)**: `retry_for=[]` (or `()`, `set()`) behaves exactly like no `retry_for`, and
+`do_not_retry_for=[]` exactly like no `do_not_retry_for`, as the truthiness tests of lines 140 and 142 make it:
+(1, 2) the constructor builds the same object — so every history of calls runs the same;
+(3, 4) with the stored tuple empty, the decision to re-raise is the one with that disjunct struck out. -/
+theorem C17_empty_filter_is_no_filter :
+    (∀ (a : CtorArgs) (k : ArgKind) (d : List Nat) (s : Nat → Nat → Bool),
+        k = .tuple ∨ k = .set ∨ k = .list →
+        construct { a with retryForKind := k, retryFor := [] } d s
+          = construct { a with retryForKind := .none } d s) ∧
+    (∀ (a : CtorArgs) (k : ArgKind) (d : List Nat) (s : Nat → Nat → Bool),
+        k = .tuple ∨ k = .set ∨ k = .list →
+        construct { a with dnrKind := k, dnr := [] } d s = construct { a with dnrKind := .none } d s) ∧
+    (∀ (cfg : Cfg) (attempt cls : Nat), cfg.retryFor = [] →
+        mustRaise cfg attempt cls = mustRaiseNoRetryFor cfg attempt cls) ∧
+    (∀ (cfg : Cfg) (attempt cls : Nat), cfg.doNotRetryFor = [] →
+        mustRaise cfg attempt cls = mustRaiseNoDoNotRetryFor cfg attempt cls) := by
+  refine ⟨?_, ?_, ?_, ?_⟩
+  · intro a k d s hk
+    rcases hk with rfl | rfl | rfl <;> simp [construct, ensureTuple]
+  · intro a k d s hk
+    rcases hk with rfl | rfl | rfl <;> simp [construct, ensureTuple]
+  · intro cfg attempt cls h
+    simp [mustRaise, mustRaiseNoRetryFor, h]
+  · intro cfg attempt cls h
+    simp [mustRaise, mustRaiseNoDoNotRetryFor, h]
+
+/-- C17 (empty filter, whole histories): a client built with an empty `retry_for` and an empty
+`do_not_retry_for` runs every history of calls exactly like one built with neither argument -/
+theorem C17_empty_filter_same_histories (a : CtorArgs) (k1 k2 : ArgKind) (d : List Nat)
+    (s : Nat → Nat → Bool) (calls : List MCall)
+    (h1 : k1 = .tuple ∨ k1 = .set ∨ k1 = .list) (h2 : k2 = .tuple ∨ k2 = .set ∨ k2 = .list) :
+    (construct { a with retryForKind := k1, retryFor := [], dnrKind := k2, dnr := [] } d s).map
+        (fun o => (runCalls o calls).2)
+      = (construct { a with retryForKind := .none, dnrKind := .none } d s).map
+        (fun o => (runCalls o calls).2) := by
+  have e1 := C17_empty_filter_is_no_filter.1
+    { a with dnrKind := k2, dnr := [] } k1 d s h1
+  have e2 := C17_empty_filter_is_no_filter.2.1 { a with retryForKind := .none } k2 d s h2
+  simp only at e1 e2
+  rw [e1, e2]
+
+/-- C17 (empty filter): with both tuples empty every exception is retryable on a method listed by `dir()` -/
+theorem C17_no_filters_everything_retryable (cfg : Cfg) (cls : Nat)
+    (h1 : cfg.retryFor = []) (h2 : cfg.doNotRetryFor = []) : retryable cfg cls = cfg.nameInDir := by
+  simp [retryable, h1, h2]
+
+/-- non-vacuity: attempts = 3 on one object (methods 1, 2 listed by `dir()`, 5 not); the first call uses
+up all three attempts and fails, the second still gets three; a call of an unlisted method gets one -/
+example :
+    let o : Obj := ⟨3, [0], [], [1, 2], fun c k => c = k || (k = 0 && c = 1)⟩
+    (runCalls o [⟨1, [.exc 1 100, .exc 0 101, .exc 1 102]⟩,
+                 ⟨2, [.exc 0 200, .exc 0 201, .ok 7]⟩,
+                 ⟨5, [.exc 0 300, .ok 8, .ok 9]⟩,
+                 ⟨1, [.ok 4, .ok 5, .ok 6]⟩]).2 =
+      [⟨.raised 1 102, 3, 2⟩, ⟨.value 7, 3, 2⟩, ⟨.raised 0 300, 1, 0⟩, ⟨.value 4, 1, 0⟩] := by decide
+/-- non-vacuity: an empty list and `None` construct the same object; a non-empty filter does not -/
+example :
+    let sub : Nat → Nat → Bool := fun c k => c = k
+    let a : CtorArgs := ⟨2, .list, [], .set, [], fun c => c < 10⟩
+    let b : CtorArgs := ⟨2, .none, [], .none, [], fun c => c < 10⟩
+    let f : CtorArgs := ⟨2, .list, [0], .none, [], fun c => c < 10⟩
+    let calls : List MCall := [⟨1, [.exc 9 1, .ok 3]⟩, ⟨1, [.exc 0 1, .exc 0 2]⟩]
+    (construct a [1] sub).map (fun o => (runCalls o calls).2) = some [⟨.value 3, 2, 1⟩, ⟨.raised 0 2, 2, 1⟩] ∧
+    (construct b [1] sub).map (fun o => (runCalls o calls).2) = some [⟨.value 3, 2, 1⟩, ⟨.raised 0 2, 2, 1⟩] ∧
+    (construct f [1] sub).map (fun o => (runCalls o calls).2) = some [⟨.raised 9 1, 1, 0⟩, ⟨.raised 0 2, 2, 1⟩] := by
+  decide
+
 end Retrying
